@@ -30,7 +30,7 @@ func init() {
 		ID:    "C09",
 		Level: "exploration",
 		Rule: "E1 bounded-exhaustive enumeration: sources (s,from,to) = every string of length ≤3 over a small byte alphabet, every byte value as a one-byte string, also behind stems of 7/8/9 (thorough: 15/16/17) bytes in 4 variants (first byte 's' / 0x00 / 0xff, eighth byte 0x80), × every 0 ≤ from ≤ to ≤ 8·len, plus EVERY stem length 0..40 with the last 10 bit positions as ends (stemmed: from in {0,8}, to around the stem end and in the tail); per source Len(New(..)) and Cmp with the canonical encoding of the same bit string must be 0; Cmp on ALL ordered pairs of canonical encodings (one per distinct bit string); " +
-			"CmpUpto and StrCmpUpto (from a fixed alphabet of call frames, after poisoning the dead stack with 0x00 and 0xff) on plain strings × all canonical encodings. Oracle: Go string comparison of '0'/'1' renderings (lexicographic, proper prefix first). A case is one call; non-trivial when both bit strings are non-empty.",
+			"plus 96 sources of 2^8 and 2^12 (±1) bytes compared in all pairs; CmpUpto and StrCmpUpto (from a fixed alphabet of call frames, after poisoning the dead stack with 0x00 and 0xff) on plain strings × all canonical encodings. Oracle: Go string comparison of '0'/'1' renderings (lexicographic, proper prefix first). A case is one call; non-trivial when both bit strings are non-empty.",
 		Assumptions: []string{
 			"byte values outside the alphabet and longer strings are not enumerated; lengths straddle the 8-byte fast-path switch through the stems",
 			"StrCmpUpto's dependence on neighbouring stack words is covered for the harness's call frames and this toolchain only",
@@ -344,6 +344,66 @@ func c09Run(c *mc.Ctx) {
 		c.Count(int64(n)*(1+2*nf), nt)
 		c.Add("cmpupto_pairs", int64(n))
 	})
+	// big strings: sources of 2^8 and 2^12 (±1) bytes, compared among themselves and with plain keys
+	{
+		var big []c09Enc
+		var evals int64
+		for _, p := range []uint{8, 12} {
+			for _, d := range []int{-1, 0, 1} {
+				l := 1<<p + d
+				for _, flip := range []int{-1, 0, l / 2, l - 1} {
+					bb := make([]byte, l)
+					for i := range bb {
+						bb[i] = byte(i*29 + 5)
+					}
+					if flip >= 0 {
+						bb[flip] ^= 0x80
+					}
+					sB := string(bb)
+					for _, to := range []int32{int32(8 * l), int32(8*l - 3), int32(8*l - 8), int32(8*l - 13)} {
+						src := c09Src{gen.Bytes(sB), 0, to}
+						e, pp := bsNew(sB, 0, to)
+						bits := c09Bits(sB, 0, to)
+						if pp != "" {
+							c.Fail(4<<40|int64(l)<<8, "New", "New/big", c09Case{A: src}, pp, "an encoding")
+							continue
+						}
+						if ln, p2 := bsLen(e); p2 != "" || int(ln) != len(bits) {
+							c.Fail(4<<40|int64(l)<<8, "Len", "Len/big", c09Case{A: src}, p2+fmt.Sprint(ln), fmt.Sprint(len(bits)))
+						}
+						evals++
+						big = append(big, c09Enc{src, bits, e})
+					}
+				}
+			}
+		}
+		for i := range big {
+			for j := range big {
+				a, b := big[i], big[j]
+				if got, pp := bsCmp(a.enc, b.enc); pp || got != ref.Sign(a.bits, b.bits) {
+					bs := b.src
+					c.Fail(4<<40|int64(i)<<20|int64(j), "Cmp", "Cmp/big", c09Case{A: a.src, B: &bs}, "", "")
+				}
+				// the plain bytes of a's source against b's encoding
+				plain := string(a.src.S)
+				t := ref.Bits(plain)
+				if len(t) > len(b.bits) {
+					t = t[:len(b.bits)]
+				}
+				want := ref.Sign(t, b.bits)
+				if got, pp := bsCmpUpto([]byte(plain), b.enc); pp || got != want {
+					c.Fail(4<<40|int64(i)<<20|int64(j), "CmpUpto", "CmpUpto/big", c09Case{A: b.src, Plain: gen.Bytes(plain)}, "", "")
+				}
+				if got, pp := bsStrCmpUpto(c09Frames[0].F, plain, b.enc); pp || got != want {
+					c.Fail(4<<40|int64(i)<<20|int64(j), "StrCmpUpto", "StrCmpUpto/big", c09Case{A: b.src, Plain: gen.Bytes(plain)}, "", "")
+				}
+				evals += 3
+			}
+		}
+		c.Count(evals, evals)
+		c.Expect(evals)
+		c.Add("big_string_cases", evals)
+	}
 	if n > 40 {
 		b := encs[n/3]
 		c.ForceSample(map[string]interface{}{"fn": "CmpUpto/StrCmpUpto", "plain": fmt.Sprintf("%x", plains[len(plains)/2]), "b_bits": b.bits, "frames": len(c09Frames), "stack_patterns": []string{"0x00", "0xff"}})
